@@ -327,7 +327,6 @@ class StructureMetaType(MetaType):
     def _write(cls, stream: BinaryIO, data: Structure) -> int:
         bit_buffer = BitBuffer(stream, cls.cs.endian)
         struct_start = stream.tell()
-        num = 0
 
         for field in cls.__fields__:
             field_type = cls.cs.resolve(field.type)
@@ -371,7 +370,6 @@ class StructureMetaType(MetaType):
                     bit_buffer.write(field_type, value, field.bits)
             else:
                 field_type._write(stream, value)
-                num += stream.tell() - offset
 
         if bit_buffer._type is not None:
             bit_buffer.flush()
@@ -380,7 +378,8 @@ class StructureMetaType(MetaType):
             # Align the stream
             stream.write(b"\x00" * (-stream.tell() & (cls.alignment - 1)))
 
-        return num
+        # Everything that was written, including padding and bit field storage units
+        return stream.tell() - struct_start
 
     def add_field(cls, name: str, type_: type[BaseType], bits: int | None = None, offset: int | None = None) -> None:
         field = Field(name, type_, bits=bits, offset=offset)
